@@ -19,6 +19,7 @@ def plan(tier, ctx):
     j += fvm.config('C12', 'barrier_2x1', 'barrier.c', 2, 4, 'tso', srcs=src, defines=['NF=2', 'ROUNDS=1'], spec=fvm.kspec(2), bounds='count 2, 1 round, x86-TSO', timeout=1800)
     j += fvm.config('C12', 'barrier_1x2', 'barrier.c', 1, 4, 'sc', srcs=src, defines=['NF=1', 'ROUNDS=2'], spec=fvm.kspec(1), bounds='count 1, 2 rounds (every wait is the serial one)', timeout=600)
     if tier == 'thorough':
+        j += fvm.config('C12', 'barrier_3x1_wrap', 'barrier.c', 3, 5, 'sc', srcs=src, defines=['NF=3', 'ROUNDS=1', 'COUNTER_START'], spec=fvm.kspec(3), bounds='count 3, 1 round, arrival counter starts at a symbolic round boundary around 2^32', timeout=3600, required=False, mem_gb=24)
         j += fvm.config('C12', 'barrier_3_reenter', 'barrier.c', 3, 4, 'sc', srcs=src, defines=['NF=3', 'ROUNDS=2', 'ASYM'], spec=fvm.kspec(3), bounds='count 3; two fibers wait once, one re-enters the barrier immediately', timeout=3000, required=False, mem_gb=24)
         j += fvm.config('C12', 'barrier_2x2', 'barrier.c', 2, 4, 'sc', srcs=src, defines=['NF=2', 'ROUNDS=2'], spec=fvm.kspec(2), bounds='count 2, 2 rounds', timeout=3600, required=False)
         j += fvm.config('C12', 'barrier_3x2', 'barrier.c', 3, 5, 'sc', srcs=src, defines=['NF=3', 'ROUNDS=2'], spec=fvm.kspec(3), bounds='count 3, 2 rounds', timeout=3000, required=False, mem_gb=24)
